@@ -109,7 +109,12 @@ impl AttributeParser {
     }
 
     fn parse_keyword(&mut self, keyword: Ident, name: Ident) -> Nested {
-        let error = expect_punct(self.next_tt(), '=');
+        // `next_tt` also yields `None` for the `,` separator and at the end of the list: in
+        // both cases the `=` is missing (`type T, u8` is not `type T = u8`).
+        let error = match self.next_tt() {
+            Some(tt) => expect_punct(Some(tt), '='),
+            None => return Nested::Unexpected(quote!(#keyword #name)),
+        };
 
         match error {
             Some(error) => {
